@@ -524,8 +524,10 @@ class Report:
               "violations": len(self.violations)}
         self.cov["known_findings_seen"] = {k: len(v) for k, v in self.known.items()}
         if self.write_evidence:
-            os.makedirs(EVIDENCE, exist_ok=True)
-            with open(os.path.join(EVIDENCE, f"{self.pid}.json"), "w") as f:
+            # areas beyond the listed properties (ids X..) keep their evidence apart from the properties'
+            evdir = EVIDENCE if not self.pid.startswith("X") else os.path.join(VERIF, "extras", "evidence")
+            os.makedirs(evdir, exist_ok=True)
+            with open(os.path.join(evdir, f"{self.pid}.json"), "w") as f:
                 json.dump(ev, f, indent=1, default=str)
         for dev, ids in sorted(self.known.items()):
             e = self.open_findings[dev]
